@@ -666,9 +666,10 @@ theorem enterGen (b : BCtx m p f cont s h fh rest) (s2 : State) (g : FId) (fuel 
 
 theorem enter (b : BCtx m p f cont s h fh rest) (x : Fiber) (g : FId) (fg : Fiber) (bb : Bool) (fuel : Nat) (v : Val)
     (hst : x.status = fh.status) (hm : x.mask = fh.mask) (hpe : x.pending = fh.pending) (hrt : x.root = fh.root)
-    (hxc : x.child = some g) (hg : s.fiber? g = some fg) (hchk : checkCanResume fg bb = none) (hgf : g ≠ f) :
+    (hxc : x.child = some g) (hg : s.fiber? g = some fg) (hchk : checkCanResume fg bb = none) (hgf : g ≠ f)
+    (hdk : DKeep fh x := by dkeep_tac) :
     G m p f cont (contNoCheck fuel (s.setFiber h x) (h :: rest) g v) := by
-  have t := Tweak.setFiber x b.c.hfp hst hm hpe hrt
+  have t := Tweak.setFiber x b.c.hfp hst hm hpe hrt hdk
   have c' := b.c.tweak t
   obtain ⟨h1, h2, h3, h4⟩ := pre_setFiber (cont := cont) x b.c.hfp b.hhp hst hm hrt (Or.inr (by rw [hxc]; intro hh; cases hh; exact hgf rfl)) b.hp b.hf b.only
   refine b.enterGen _ g fuel v c'.hpo c'.hs h1 h2 h3 (h4 _) ?_ hgf
@@ -679,9 +680,9 @@ theorem enterMarked (b : BCtx m p f cont s h fh rest) (x : Fiber) (g : FId) (fg 
     (d : FId) (fd : Fiber)
     (hst : x.status = fh.status) (hm : x.mask = fh.mask) (hpe : x.pending = fh.pending) (hrt : x.root = fh.root)
     (hxc : x.child = some g) (hg : s.fiber? g = some fg) (hchk : checkCanResume fg bb = none) (hgf : g ≠ f)
-    (hd : (s.setFiber h x).fiber? d = some fd) (hdp : p ≠ d) :
+    (hd : (s.setFiber h x).fiber? d = some fd) (hdp : p ≠ d) (hdk : DKeep fh x := by dkeep_tac) :
     G m p f cont (contNoCheck fuel ((s.setFiber h x).setFiber d { fd with pending := some cancelSignal }) (h :: rest) g v) := by
-  have t := Tweak.setFiber x b.c.hfp hst hm hpe hrt
+  have t := Tweak.setFiber x b.c.hfp hst hm hpe hrt hdk
   have c' := b.c.tweak t
   obtain ⟨h1, h2, h3, h4⟩ := pre_setFiber (cont := cont) x b.c.hfp b.hhp hst hm hrt (Or.inr (by rw [hxc]; intro hh; cases hh; exact hgf rfl)) b.hp b.hf b.only
   obtain ⟨k1, k2, k3, k4⟩ := pre_setFiber (cont := cont) { fd with pending := some cancelSignal } hd hdp rfl rfl rfl (Or.inl rfl) h1 h2 h3
@@ -704,8 +705,8 @@ theorem enterMarked (b : BCtx m p f cont s h fh rest) (x : Fiber) (g : FId) (fg 
 /-- a write to the head only (status, mask, root, child kept), stack unchanged -/
 theorem tweak (b : BCtx m p f cont s h fh rest) (x : Fiber)
     (hst : x.status = fh.status) (hm : x.mask = fh.mask) (hpe : x.pending = fh.pending) (hrt : x.root = fh.root)
-    (hxc : x.child = fh.child ∨ x.child ≠ some f) : BCtx m p f cont (s.setFiber h x) h x rest := by
-  have t := Tweak.setFiber x b.c.hfp hst hm hpe hrt
+    (hxc : x.child = fh.child ∨ x.child ≠ some f) (hdk : DKeep fh x := by dkeep_tac) : BCtx m p f cont (s.setFiber h x) h x rest := by
+  have t := Tweak.setFiber x b.c.hfp hst hm hpe hrt hdk
   obtain ⟨h1, h2, h3, h4⟩ := pre_setFiber (cont := cont) x b.c.hfp b.hhp hst hm hrt hxc b.hp b.hf b.only
   refine ⟨b.c.tweak t, ⟨h1, h2, ?_⟩, h3, b.hne, b.hhp, b.acc⟩
   rcases b.blk.2.2 with ho | ho
@@ -766,9 +767,9 @@ theorem ofTweak (b : BCtx m p f cont s h fh rest) {s' : State} {fh' : Fiber} (t 
 /-- a refused `next`: the refusal error is handed to the callers -/
 theorem refusedUnwind (b : BCtx m p f cont s h fh rest) (x : Fiber) (g : FId) (v : Val)
     (hst : x.status = fh.status) (hm : x.mask = fh.mask) (hpe : x.pending = fh.pending) (hrt : x.root = fh.root)
-    (hxc : x.child = some g) (hgf : g ≠ f) :
+    (hxc : x.child = some g) (hgf : g ≠ f) (hdk : DKeep fh x := by dkeep_tac) :
     G m p f cont (unwind (s.setFiber h x) (h :: rest) g sigError v) := by
-  have t := Tweak.setFiber x b.c.hfp hst hm hpe hrt
+  have t := Tweak.setFiber x b.c.hfp hst hm hpe hrt hdk
   have c' := b.c.tweak t
   obtain ⟨h1, h2, h3, h4⟩ := pre_setFiber (cont := cont) x b.c.hfp b.hhp hst hm hrt (Or.inr (by rw [hxc]; intro hh; cases hh; exact hgf rfl)) b.hp b.hf b.only
   rcases b.blk.2.2 with hoff | ⟨pre, post, hstk⟩
